@@ -46,6 +46,8 @@ type Universe struct {
 	Prog    *ssa.Program
 	SSA     map[string]*ssa.Package
 	Fset    *token.FileSet
+	Inlined []InlineReport // helper calls expanded before analysis
+	Expanded map[*ssa.Function]bool // helpers all of whose uses were expanded: not analysed on their own
 
 	repoFuncs  []*ssa.Function
 	byName     map[string]*ssa.Function
@@ -147,8 +149,59 @@ func Load(root, dir, goos string, patterns ...string) (*Universe, error) {
 		}
 		u.SSA[path] = sp
 	}
+	if KnownFuncs != nil {
+		rep, err := u.InlineUnknownHelpers(func(key string) bool { return KnownFuncs[key] })
+		if err != nil {
+			return nil, &LoadError{"helper expansion failed: " + err.Error()}
+		}
+		u.Inlined = rep
+	}
+	if NormalizeCFG {
+		if err := u.NormalizeAll(); err != nil {
+			return nil, &LoadError{"control-flow normalisation failed: " + err.Error()}
+		}
+	}
 	u.index()
 	return u, nil
+}
+
+// NormalizeCFG: run jump threading (thread.go) over every repository function,
+// so that `case a && b:` / `x := a || b; if x` (which go/ssa renders as a phi of
+// booleans followed by a branch) and `if a { if b {` have the same graph.
+var NormalizeCFG = true
+
+// NormalizeAll threads jumps in every repository function.
+func (u *Universe) NormalizeAll() error {
+	for fn := range ssautil.AllFunctions(u.Prog) {
+		if !u.IsRepoFunc(fn) || len(fn.Blocks) == 0 {
+			continue
+		}
+		if ThreadJumps(fn) > 0 {
+			if err := checkFunction(fn); err != nil {
+				return fmt.Errorf("%s: %v", fn, err)
+			}
+		}
+	}
+	return nil
+}
+
+// KnownFuncs lists (by package path "::" relative name) the repository
+// functions the rules were written against; calls to any other inlinable
+// repository function are expanded in place before analysis (inline.go). nil
+// switches the expansion off.
+var KnownFuncs map[string]bool
+
+// FuncKeys lists the keys of all top-level repository functions (used to
+// regenerate known_funcs.txt).
+func (u *Universe) FuncKeys() []string {
+	var out []string
+	for _, fn := range u.repoFuncs {
+		if fn.Parent() == nil {
+			out = append(out, u.funcKey(fn))
+		}
+	}
+	sort.Strings(out)
+	return out
 }
 
 func (u *Universe) index() {
@@ -156,6 +209,9 @@ func (u *Universe) index() {
 	for fn := range all {
 		u.allFuncs[fn] = true
 		if !u.IsRepoFunc(fn) {
+			continue
+		}
+		if top := topLevel(fn); u.Expanded[top] {
 			continue
 		}
 		if fn.Synthetic != "" && fn.Parent() == nil {
@@ -207,6 +263,13 @@ func (u *Universe) FuncsUnder(prefix string) []*ssa.Function {
 	}
 	sort.Slice(out, func(i, j int) bool { return out[i].String() < out[j].String() })
 	return out
+}
+
+func topLevel(fn *ssa.Function) *ssa.Function {
+	for fn.Parent() != nil {
+		fn = fn.Parent()
+	}
+	return fn
 }
 
 func (u *Universe) funcKey(fn *ssa.Function) string {
